@@ -1,7 +1,7 @@
 (* C07 — no sequence of received frames can stop, stall or permanently clog the stack (J1939-21 and J1939-22 models). *)
 From J1939 Require Import Base CodecGlue Model21 Model22.
 From J1939.gen Require Import Codec Tp21Gen CaGen Tp22Gen.
-From J1939P Require Import CodecProofs Flat FilterProofs RobustProofs TimeoutProofs MpgProofs PoolProofs RobustProofs22.
+From J1939P Require Import CodecProofs Flat FilterProofs RobustProofs TimeoutProofs MpgProofs PoolProofs RobustProofs22 TimeoutProofs22.
 
 (* T07.3: the transport pass over ANY session tables (whatever traffic created them), at ANY instant, hands on
    a wake-up time strictly in the future or raises: the job loop cannot busy-spin on protocol state *)
@@ -52,3 +52,66 @@ Theorem C07_fd_default_configuration_ok : forall maxp civ biv,
   (forall v, civ = Some v -> 0 < v) -> (forall v, biv = Some v -> 0 < v) -> cfg22_ok (cfg22 (init_node22 maxp civ biv)).
 Proof. exact init22_cfg_ok. Qed.
 Print Assumptions C07_fd_default_configuration_ok.
+
+(* ------------------------------------------------------------------------------------------------------------------
+   J1939-22: what one pass of the job thread does to a session whose time limit has run out — every session record,
+   table and continuation.  The abort goes from the side that gives up to its peer under the session's own number; the
+   originating side returns its session number to the pool it was taken from; nothing happens before the deadline. *)
+Theorem C07_fd_timeouts_within_standard :
+  tp22_T1 = 750000 /\ tp22_T2 = 1250000 /\ tp22_T3 = 1250000 /\ tp22_T4 = 1050000 /\ tp22_T5 = 3000000 /\ tp22_Th = 500000.
+Proof. exact timeouts22_within_standard. Qed.
+Print Assumptions C07_fd_timeouts_within_standard.
+
+Theorem C07_fd_rcv_timeout_releases : forall key now nw m k b,
+  tget (f_rcv m) key = Some b -> q_deadline b <> 0 -> q_deadline b <= now ->
+  flat22 (rcv_pass22 [key] now nw m k) =
+  let m' := set_frcv m (tdel (f_rcv m) key) in
+  let '(s, os, r) := flat22 (k m' nw) in
+  (s, (if q_dst b =? addr_GLOBAL then [] else [OTx (tp22_abort (q_dst b) (q_src b) (q_session b) tp22_reason_TIMEOUT (q_pgn b))]) ++ os, r).
+Proof. exact rcv22_timeout_releases. Qed.
+Print Assumptions C07_fd_rcv_timeout_releases.
+
+Theorem C07_fd_rcv_untouched_before_deadline : forall key now nw m k b,
+  tget (f_rcv m) key = Some b -> now < q_deadline b -> 0 <= now ->
+  rcv_pass22 [key] now nw m k = k m (minw nw (q_deadline b)).
+Proof. exact rcv22_before_deadline. Qed.
+Print Assumptions C07_fd_rcv_untouched_before_deadline.
+
+Theorem C07_fd_snd_timeout_releases : forall key now nw m k b,
+  tget (f_snd m) key = Some b -> t_state b = tp22_st_WAITING_CTS -> t_deadline b <> 0 -> t_deadline b <= now ->
+  in_pool m b ->
+  exists m', returned (set_fsnd m (tdel (f_snd m) key)) b m' /\
+  flat22 (snd_pass22 [key] now nw m k) =
+  let '(s, os, r) := flat22 (k m' nw) in
+  (s, OTx (tp22_abort (t_src b) (t_dst b) (t_session b) tp22_reason_TIMEOUT (t_pgn b)) :: os, r).
+Proof. exact snd22_timeout_releases. Qed.
+Print Assumptions C07_fd_snd_timeout_releases.
+
+Theorem C07_fd_unacknowledged_session_released : forall key now nw m k b,
+  tget (f_snd m) key = Some b -> t_state b = tp22_st_WAITING_EOM_ACK -> t_deadline b <> 0 -> t_deadline b <= now ->
+  in_pool m b ->
+  exists m', returned (set_fsnd m (tdel (f_snd m) key)) b m' /\
+  snd_pass22 [key] now nw m k = k m' nw.
+Proof. exact snd22_ack_wait_releases. Qed.
+Print Assumptions C07_fd_unacknowledged_session_released.
+
+Theorem C07_fd_finished_session_released : forall key now nw m k b,
+  tget (f_snd m) key = Some b ->
+  t_state b = tp22_st_EOM_ACK_RECEIVED \/ t_state b = tp22_st_TRANSMISSION_FINISHED ->
+  t_deadline b <> 0 -> t_deadline b <= now -> in_pool m b ->
+  exists m', returned (set_fsnd m (tdel (f_snd m) key)) b m' /\
+  snd_pass22 [key] now nw m k = k m' nw.
+Proof. exact snd22_finished_releases. Qed.
+Print Assumptions C07_fd_finished_session_released.
+
+Theorem C07_fd_snd_untouched_before_deadline : forall key now nw m k b,
+  tget (f_snd m) key = Some b -> now < t_deadline b -> 0 <= now ->
+  snd_pass22 [key] now nw m k = k m (minw nw (t_deadline b)).
+Proof. exact snd22_before_deadline. Qed.
+Print Assumptions C07_fd_snd_untouched_before_deadline.
+
+Theorem C07_fd_returned_number_is_free : forall m b m',
+  in_pool m b -> returned m b m' ->
+  nth_error (if t_dst b =? addr_GLOBAL then f_bam m' else f_rts m') (Z.to_nat (t_session b)) = Some true.
+Proof. exact returned_is_free. Qed.
+Print Assumptions C07_fd_returned_number_is_free.
